@@ -89,8 +89,14 @@ PermFineA(fa, fb, res, cax, pi, slack, fine, amp) ==
           IN  FineByA(fa, fb, res, LAMBDA ix : [ix EXCEPT ![p] = pi[ix[p] + 1]], slack, fine, amp)
 PermFine(fa, fb, res, cax, pi, slack, fine) == PermFineA(fa, fb, res, cax, pi, slack, fine, FZero)
 \* B = A at leading index lead (B lacks the leading axes)
-SliceField(fa, fb, lead, slack) ==
+SliceFieldA(fa, fb, lead, slack, amp) ==
   /\ Len(fa.t.shape) = Len(fb.t.shape) + Len(lead)
   /\ SubSeq(fa.t.shape, Len(lead) + 1, Len(fa.t.shape)) = fb.t.shape
-  /\ RelatedBy(fa, fb, LAMBDA ix : lead \o ix, slack)
+  /\ RelatedByA(fa, fb, LAMBDA ix : lead \o ix, slack, amp)
+SliceField(fa, fb, lead, slack) == SliceFieldA(fa, fb, lead, slack, FZero)
+\* the stacked call and the call on one slice perform the same arithmetic: fine residual mode
+SliceFineA(fa, fb, res, lead, slack, fine, amp) ==
+  /\ Len(fa.t.shape) = Len(fb.t.shape) + Len(lead)
+  /\ SubSeq(fa.t.shape, Len(lead) + 1, Len(fa.t.shape)) = fb.t.shape
+  /\ FineByA(fa, fb, res, LAMBDA ix : lead \o ix, slack, fine, amp)
 =============================================================================
